@@ -376,8 +376,12 @@ def _partition(ctx, an, model, gs, g):
             if isinstance(c.op, ast.And):
                 return False if any(v is False for v in vs) else (True if all(v is True for v in vs) else None)
             return True if any(v is True for v in vs) else (False if all(v is False for v in vs) else None)
-        if isinstance(c, ast.Call) and isinstance(c.func, ast.Name) and c.func.id == "isinstance" and len(c.args) == 2 \
-                and isinstance(c.args[0], ast.Name) and c.args[0].id == fieldvar:
+        is_field_expr = isinstance(c, ast.Call) and isinstance(c.func, ast.Name) and c.func.id == "isinstance" and len(c.args) == 2 and (
+            (isinstance(c.args[0], ast.Name) and c.args[0].id == fieldvar) or
+            # the field looked up by the key: isinstance(schema._fields[key], VirtualField)
+            (isinstance(c.args[0], ast.Subscript) and isinstance(c.args[0].slice, ast.Name) and c.args[0].slice.id == keyvar and keyvar is not None
+             and _holds_fields(c.args[0].value)))
+        if is_field_expr:
             spec = ft.class_spec(c.args[1], {}) or []
             if not spec or any(s_ not in model.classes for s_ in spec):
                 return None
